@@ -353,7 +353,7 @@ def gen_tree(rng, idx):
                 files.append(rel)
         if rng.random() < 0.3:                       # a file and a directory with the same stem
             stem = rng.choice(["inc", "x", "sub"])
-            if d + "/" + stem in dirs and d + "/" + stem + ".toml" not in files:
+            if d + "/" + stem in dirs and d + "/" + stem + ".toml" not in files and d + "/" + stem + ".toml" not in dirs:
                 files.append(d + "/" + stem + ".toml")
     for t in dict.fromkeys(top):
         if t + "/main.toml" not in files and t + "/main.toml" not in dirs:
